@@ -672,6 +672,8 @@ func addTimeSubs(cfg *ResponseConfig, a *asset, period *m.Period, languages []st
 			st.Media = "$RepresentationID$/$Number$.m4s"
 		}
 		st.SetTimescale(SUBS_TIME_TIMESCALE)
+		// The subtitle segments become available together with the video segments
+		st.AvailabilityTimeOffset = vST.AvailabilityTimeOffset
 
 		if vST.Duration != nil {
 			st.Duration = Ptr(*vST.Duration * 1000 / vST.GetTimescale())
